@@ -167,7 +167,7 @@ func (h *vfE2H) doOvershoot(k int) {
 		h.fail("pub", "publish refused during the overshoot schedule")
 	}
 	h.acked(tp, seq, 16, false)
-	h.emit(fmt.Sprintf("pub %d 16", tp.t), fmt.Sprintf("ids %d", seq))
+	h.emit(fmt.Sprintf("pub %d 16 @T%d %d", tp.t, seq, vfE2Crc(body)), fmt.Sprintf("ids %d", seq))
 	for i := 0; i < 4000 && rc.Depth() == 0; i++ {
 		time.Sleep(500 * time.Microsecond)
 	}
@@ -194,7 +194,7 @@ func (h *vfE2H) doOvershoot(k int) {
 			now = im.deliveryTS.UnixNano()
 		}
 		rc.inFlightMutex.Unlock()
-		h.emit(fmt.Sprintf("deliverarmed %d %d %d", k, m.seq, now), fmt.Sprintf("msg %d", m.att))
+		h.emit(fmt.Sprintf("deliverarmed %d %d %d", k, m.seq, now), fmt.Sprintf("msg %d %d %d", m.att, m.ts, m.crc))
 		ch.lastAtt[m.seq] = int(m.att)
 		ch.holder[m.seq] = k
 		cn.out++
